@@ -96,6 +96,14 @@ Hops(c, kind, rel, ph) ==
     IN IF m = {} THEN <<>>
        ELSE LET j == Min(m) IN <<ls[j], Direct(ls[j].kind, kind, rel, ph)[1]>>
 
+\* a two-hop step is well defined when only one association class path offers it
+HopCandidates(c, kind, rel, ph) ==
+    LET ls == LinksOf(c) IN {j \in DOMAIN ls : ls[j].rel = rel /\ ls[j].ph = ph /\ Direct(ls[j].kind, kind, rel, ph) # <<>>}
+StepUnambiguous(c, kind, rel, ph) == Direct(c, kind, rel, ph) # <<>> \/ Cardinality(HopCandidates(c, kind, rel, ph)) <= 1
+RECURSIVE ChainUnambiguous(_, _)
+ChainUnambiguous(c, chain) ==
+    chain = <<>> \/ (StepUnambiguous(c, chain[1][1], chain[1][2], chain[1][3]) /\ ChainUnambiguous(chain[1][1], Tail(chain)))
+
 NavKnown(c, kind, rel, ph) == Direct(c, kind, rel, ph) # <<>> \/ Hops(c, kind, rel, ph) # <<>>
 
 \* instances of `kind` reached from instance i of class c
@@ -191,7 +199,8 @@ Card(f) == CASE f.k = "none" -> 0 [] f.k = "inst" -> 1 [] OTHER -> Len(StartSeq(
 FromDomain(f) == f.k # "sel" \/ OpsDomain(f.c, f.ops)
 InDomain(o) ==
     CASE o.k = "sel" -> OpsDomain(o.c, o.ops)
-      [] o.k = "nav" -> FromDomain(o.from) /\ (o.chain = <<>> \/ OpsDomain(o.chain[Len(o.chain)][1], o.ops))
+      [] o.k = "nav" -> /\ FromDomain(o.from) /\ (o.chain = <<>> \/ OpsDomain(o.chain[Len(o.chain)][1], o.ops))
+                        /\ ChainUnambiguous(o.from.c, o.chain)
       [] o.k = "card" -> FromDomain(o.from)
       [] OTHER -> TRUE
 
